@@ -380,7 +380,8 @@ def g_c15_run(tier, rnd):
     # (n_inst, n_beads, n_samples, datatypes, all_units_empty, blank_rows, [(plot, hist, explicit_out, shim, extra_sheet, name)])
     plans = [
         (1, 1, 2, ['I'], True, False, [(False, True, False, 0, False, 'experiment.xlsx')]),
-        (1, 1, 2, ['I'], False, False, [(False, False, False, 0, False, 'experiment.xlsx'), (False, True, True, 2, False, 'experiment.xlsx')]),
+        (1, 1, 2, ['I'], False, False, [(False, False, False, 0, False, 'experiment.xlsx'), (False, True, True, 2, False, 'experiment.xlsx'),
+                                        (False, True, False, 0, False, 'experiment.xlsx')]),
         (2, 2, 3, ['F', 'I'], False, True, [(False, True, False, 2, True, 'my experiment v2.xlsx'), (False, False, True, 1, False, 'e.xlsx')]),
         (1, 0, 1, ['D'], False, False, [(False, True, False, 2, False, 'nobeads.xlsx')]),
     ]
